@@ -230,6 +230,16 @@ public:
 	virtual char ReadBinary() = 0;
 
 	virtual void SkipValue() = 0;
+
+	/// <summary>
+	/// Remembers that the unread rest of a scope could not be skipped when the scope was closed (truncated or corrupted data).
+	/// The scopes' destructors must not throw, the root scope reports it from `Finalize()`.
+	/// </summary>
+	void SetCloseScopeFailed() noexcept { mCloseScopeFailed = true; }
+	[[nodiscard]] bool IsCloseScopeFailed() const noexcept { return mCloseScopeFailed; }
+
+private:
+	bool mCloseScopeFailed = false;
 };
 
 //-----------------------------------------------------------------------------
@@ -529,7 +539,8 @@ public:
 		}
 		catch (...)
 		{
-			// A destructor must not throw: the next read (if any) reports the truncated data
+			// A destructor must not throw: the failure is reported when loading is finalized
+			mMsgPackReader->SetCloseScopeFailed();
 		}
 	}
 
@@ -608,7 +619,8 @@ public:
 		}
 		catch (...)
 		{
-			// A destructor must not throw: the next read (if any) reports the truncated or corrupted data
+			// A destructor must not throw: the failure is reported when loading is finalized
+			mMsgPackReader->SetCloseScopeFailed();
 		}
 	}
 
@@ -737,7 +749,8 @@ public:
 		catch (...)
 		{
 			// A destructor must not throw (std::terminate): when the rest of the object is truncated or corrupted,
-			// the reader is left where the error occurred and the next read (if any) reports it.
+			// the reader is left where the error occurred and the failure is reported when loading is finalized.
+			mMsgPackReader->SetCloseScopeFailed();
 		}
 	}
 
@@ -981,7 +994,12 @@ public:
 		return std::nullopt;
 	}
 
-	static constexpr void Finalize() noexcept { /* Not required */ }
+	void Finalize() const
+	{
+		if (mMsgPackReader->IsCloseScopeFailed()) {
+			throw ParsingException("Unexpected end of input archive", 0, mMsgPackReader->GetPosition());
+		}
+	}
 
 private:
 	IMsgPackReader* mMsgPackReader = nullptr;
